@@ -520,6 +520,7 @@ Outcome Interp::exec(const Op &op) {
             if (!isP && dev == 9 && nSub > 0) { --nSub; out.note = "sub-1"; }
             if (!isP && dev == 10) { ++nSub; out.note = "sub+1"; }
             std::vector<ezc3d::DataNS::Frame> col;
+            std::vector<SFrame> builtModel;
             if (dev == 8 && !lastCol.empty()) { col = lastCol; out.note = "reuse-caller-vector"; }
             else if (dev == 1) { out.note = "empty-vector"; }
             else {
@@ -551,10 +552,12 @@ Outcome Interp::exec(const Op &op) {
                         }
                         fr.add(an);
                     }
+                    builtModel.push_back(takeFrame(fr));      // the content intended for frame f, read before the caller's object is touched again
                     col.push_back(fr);
                 }
             }
             lastCol = col;
+            if (!(dev == 8 && !lastColModel.empty() && lastColModel.size() == lastCol.size())) { if (builtModel.size() == lastCol.size()) lastColModel = builtModel; else { lastColModel.clear(); for (auto &q3 : lastCol) lastColModel.push_back(takeFrame(q3)); } }
             out.mutating = true;
             if (isP) obj->point(lastCol); else obj->analog(lastCol);
             if (out.note == "altname" || out.note == "ragged") out.undocumented = true;    // accepted although the frames disagree: undocumented, the history ends
@@ -568,6 +571,7 @@ Outcome Interp::exec(const Op &op) {
                 for (size_t s = 0; s < A.nbSubframes(); ++s) for (size_t c = 0; c < A.subframe_nonConst(s).nbChannels(); ++c)
                     A.subframe_nonConst(s).channel_nonConst(c).data(bitsToFloat(genFloatBits(r)));
             }
+            lastColModel.clear(); for (auto &q3 : lastCol) lastColModel.push_back(takeFrame(q3));
         }
         else if (k == "gapfill") {
             // replace every frame that does not carry the declared shape by a matching one
@@ -577,7 +581,7 @@ Outcome Interp::exec(const Op &op) {
                 const auto &fr = obj->data().frame(f);
                 bool complete = fr.points().nbPoints() == s.nP;
                 size_t wantSub = s.nC ? s.nSub : 0;
-                if (fr.analogs().nbSubframes() != wantSub) complete = false;
+                if (s.nC != 0 && fr.analogs().nbSubframes() != wantSub) complete = false;
                 for (size_t k2 = 0; complete && k2 < fr.analogs().nbSubframes(); ++k2)
                     if (fr.analogs().subframe(k2).nbChannels() != s.nC) complete = false;
                 if (complete) continue;
